@@ -434,7 +434,8 @@ func (a updateConnectorAction) update(ctx context.Context, cfg config.Connector)
 	// update processor IDs
 	if !a.isEqual(c.ProcessorIDs, cfg.Processors) {
 		// recreate all processor IDs
-		for _, procID := range c.ProcessorIDs {
+		// iterate over a copy: RemoveProcessor shifts c.ProcessorIDs in place
+		for _, procID := range append([]string(nil), c.ProcessorIDs...) {
 			_, err = a.connectorService.RemoveProcessor(ctx, cfg.ID, procID)
 			if err != nil {
 				return cerrors.Errorf("failed to remove processor %v: %w", procID, err)
